@@ -70,8 +70,18 @@ def project(chk, P):
         return
     f = fs[0]
     params = [p_[0] for p_ in f.d["params"]]
-    pi = "pi"
-    chk.shape(pi in params, "PROJECT", "solve:pi-parameter", f.loc, "the impulse vector is the parameter `pi`")
+    # roles, not names: the impulse vector is the parameter handed as last argument to the update routines; a row family is the parameter whose element
+    # type is that family's record type
+    lastargs = {var_of(call_args(e)[-1]) for _, _, e in f.calls() if re.search(r"::doUpdates?$", str(e.get("fn", "")))}
+    pi = next(iter(lastargs)) if len(lastargs) == 1 else None
+    chk.shape(pi in params, "PROJECT", "solve:pi-parameter", f.loc, "the impulse vector is the parameter every update routine writes: %s" % sorted(str(x) for x in lastargs))
+    FAMTYPE = {"UncondRT": "unconditional", "UniContactRT": "uniContact", "UniSpeedRT": "uniSpeed", "BoundedRT": "bounded", "StateLtdFrictionRT": "stateLtdFriction",
+               "ConstraintLtdFrictionRT": "consLtdFriction"}
+    famof = {}
+    for pn, pt in f.d["params"]:
+        for tn, fam_ in FAMTYPE.items():
+            if re.search(r"\b%s\b" % tn, pt):
+                famof[pn] = fam_
     loops = f.loops()
     main = [h for h in loops if isinstance(_loop_var(f, h)[1], list) and bool(sx_find(_loop_var(f, h)[1], lambda y: y[0] == "mem" and y[2].endswith("::m_maxIters")))]
     if not chk.shape(len(main) == 1, "PROJECT", "solve:sweep-loop", f.loc, "%d loops bounded by m_maxIters" % len(main)):
@@ -91,9 +101,9 @@ def project(chk, P):
         fam = None
         for b, i, e in evs:
             if e["k"] == "decl" and isinstance(e.get("init"), list):
-                src = [y[1] for y in sx_find(e["init"], lambda y: y[0] == "var" and y[1] in params and y[1] in ("unconditional", "uniContact", "uniSpeed", "bounded", "stateLtdFriction", "consLtdFriction"))]
+                src = [y[1] for y in sx_find(e["init"], lambda y: y[0] == "var" and y[1] in famof)]
                 if src:
-                    fam = src[0]
+                    fam = famof[src[0]]
                     break
         if not chk.shape(fam is not None and len(ups) == 1, "PROJECT", "loop@%d:family" % (f.blocks[h]["ev"][0]["line"] if f.blocks[h]["ev"] else h), f.loc, "row family %s, %d update calls" % (fam, len(ups))):
             continue
